@@ -97,6 +97,11 @@ func (r *c18Run) workload(kind string) {
 	}
 	var s1, g1, g2, big *Pending
 	step(func() {
+		// a call whose response the client cannot use (declared as a subscription, answered with a string): it stays in
+		// flight until the connection or the client goes away
+		add(rig.Go(cl, "mismatch", rig.Tok("mm"), Plan{}))
+	})
+	step(func() {
 		s1 = add(rig.Go(cl, "sub", rig.Tok("s"), Plan{N: 8, Early: 1, Pace: true, Linger: true}))
 		select {
 		case <-s1.Done:
@@ -362,7 +367,7 @@ func c18NT(c c18Case) (bool, []string) {
 	return c.TrigPoint != "end", cl
 }
 
-const c18Rule = "mixed workload A (paced stream, gated calls awaiting responses, 40 kB multi-frame response, burst of queued calls and a notification, second subscription) and B (A plus a connection reset with refused redials, calls issued between connections incl. retry-tagged, heal); a counting pass records how often each client-side yield point (and each dial) occurs, then the closer is fired at occurrence k of point p with the library goroutine held for 1 ms (and, on the frame-consuming paths, a variant held until the closer has returned, at most 30 ms): every (p,k) in thorough, a stratified sample in quick, plus rapid-drawn (p,k) with delays at exit.exiting-closed / stop.begin / closechans.begin; http and custom clients are closed with calls in progress. Non-trivial = close fired from inside a yield point (not at the quiescent end); distinct by descriptor hash"
+const c18Rule = "mixed workload A (a call whose answer cannot be decoded and which therefore stays in flight, paced stream, gated calls awaiting responses, 40 kB multi-frame response, burst of queued calls and a notification, second subscription) and B (A plus a connection reset with refused redials, calls issued between connections incl. retry-tagged, heal); a counting pass records how often each client-side yield point (and each dial) occurs, then the closer is fired at occurrence k of point p with the library goroutine held for 1 ms (and, on the frame-consuming paths, a variant held until the closer has returned, at most 30 ms): every (p,k) in thorough, a stratified sample in quick, plus rapid-drawn (p,k) with delays at exit.exiting-closed / stop.begin / closechans.begin; http and custom clients are closed with calls in progress. Non-trivial = close fired from inside a yield point (not at the quiescent end); distinct by descriptor hash"
 
 func TestC18(t *testing.T) {
 	rec := NewRec("C18", c18Rule)
